@@ -5,6 +5,8 @@
 -/
 import CB.Lemmas.AddSub
 import CB.Lemmas.C04Forms
+import CB.Lemmas.C04Wrap
+import CB.Lemmas.C16Hex
 namespace CB.P04
 open CB CB.Cmp CB.AddSub
 
@@ -293,5 +295,77 @@ example : (usbb [0, 0] [1, 0] 0) = ([WMAX, WMAX], WMAX) := by decide
 example : (carryingNeg [0, 0]) = ([0, 0], WMAX) := by decide
 example : badc [WMAX] [1, 5] 0 = ([0, 6], 0) ∧ bsbb [0] [1, 0] 0 = ([WMAX, WMAX], WMAX) := by decide
 example : boxedAddAssign [WMAX, 0] [1] = some [0, 1] ∧ boxedAddAssign [0] [0, 1] = none := by decide
+
+/-! ### T04.9 (coverage round) the remaining `Limb`, `Checked<T>` and `Wrapping<T>` forms -/
+
+section coverage
+open CB.WrapForms CB.NumTests
+
+/-- `Wrapping<Limb>` `+=` / `-=` (by value and by reference) and `<Limb as WrappingNeg>::wrapping_neg`:
+    the result modulo `2^64`. -/
+theorem limb_wrapping_assign_spec {a b : Nat} (ha : a < B) (hb : b < B) :
+    limbWrappingAddAssign a b = (a + b) % B ∧ limbWrappingSubAssign a b = (a + B - b) % B ∧
+    limbWrappingNegTrait a = (B - a) % B := by
+  refine ⟨rfl, ?_, ?_⟩
+  · show (a + B - b % B) % B = _; rw [Nat.mod_eq_of_lt hb]
+  · show (B - a % B) % B = _; rw [Nat.mod_eq_of_lt ha]
+
+/-- `Checked<Limb>` `+=` / `-=`: some exactly when BOTH operands are some (none is sticky) and the true result is
+    a word; then the value is exact. -/
+theorem limb_checked_assign_spec {a b sa sb : Nat} (ha : a < B) (hb : b < B) (hsa : sa ≤ 1) (hsb : sb ≤ 1) :
+    ((limbCheckedAddAssign (a, sa) (b, sb)).2 = (if sa = 1 ∧ sb = 1 ∧ a + b < B then 1 else 0) ∧
+      (a + b < B → (limbCheckedAddAssign (a, sa) (b, sb)).1 = a + b)) ∧
+    ((limbCheckedSubAssign (a, sa) (b, sb)).2 = (if sa = 1 ∧ sb = 1 ∧ b ≤ a then 1 else 0) ∧
+      (b ≤ a → (limbCheckedSubAssign (a, sa) (b, sb)).1 = a - b)) := by
+  have h1 := limbCheckedAddAssign_spec ha hb hsa hsb
+  exact ⟨⟨h1.1, fun hlt => by rw [h1.2, Nat.mod_eq_of_lt hlt]⟩, limbCheckedSubAssign_spec ha hb hsa hsb⟩
+
+/-- `Checked<T>::conditional_select` returns exactly the chosen operand — value and `is_some` together. -/
+theorem checked_select_spec {a b : CtOpt} (p : Bool) (ha : WF a.1) (hb : WF b.1) (h : a.1.length = b.1.length)
+    (hsa : a.2 ≤ 1) (hsb : b.2 ≤ 1) :
+    ctoptSelect a b (if p then 1 else 0) = if p then b else a := ctoptSelect_spec p ha hb h hsa hsb
+
+/-- `Checked<T>::ct_eq`: true exactly when both are none or both are some with the same value. -/
+theorem checked_ct_eq_spec {a b : CtOpt} (ha : WF a.1) (hb : WF b.1) (h : a.1.length = b.1.length)
+    (hsa : a.2 ≤ 1) (hsb : b.2 ≤ 1) :
+    ctoptEq a b = if view a = view b then 1 else 0 := ctoptEq_spec ha hb h hsa hsb
+
+/-- `Checked::default()` is `some 0`; the `From` conversions hand the option through unchanged. -/
+theorem checked_default_conv_spec (n : Nat) (a : CtOpt) :
+    view (checkedDefault n) = some 0 ∧ checkedToCtOption a = a ∧ checkedFromCtOption a = a ∧
+    (checkedToOption a).map val = view a := by
+  refine ⟨by simp [view, checkedDefault, val_uzero], rfl, rfl, ?_⟩
+  unfold checkedToOption view
+  by_cases h : a.2 = 1 <;> simp [h]
+
+/-- `Wrapping<T>`: `conditional_select` returns the chosen operand, `ct_eq` / `is_zero` / `is_one` decide equality of
+    the values with each other / with 0 / with 1, `zero()` and `one()` have the values 0 and 1. -/
+theorem wrapping_ct_spec {a b : List Nat} (p : Bool) (ha : WF a) (hb : WF b) (h : a.length = b.length) (hne : a ≠ []) :
+    wrappingSelect a b (if p then 1 else 0) = (if p then b else a) ∧
+    wrappingCtEq a b = mask (decide (val a = val b)) ∧
+    wrappingIsZero a = mask (decide (val a = 0)) ∧ wrappingIsOne a = mask (decide (val a = 1)) ∧
+    val (wrappingZero a.length) = 0 ∧ val (wrappingOne a.length) = 1 := by
+  obtain ⟨n, hn⟩ : ∃ n, a.length = n + 1 := by
+    cases a with
+    | nil => exact absurd rfl hne
+    | cons x xs => exact ⟨xs.length, rfl⟩
+  refine ⟨?_, ueq_spec ha hb h, isZeroNum_spec ha, isOneNum_spec ha hne, val_uzero _, by rw [hn]; exact val_uone n⟩
+  unfold wrappingSelect
+  rw [maskOfBit_bool, uselect_spec p ha hb h]
+
+/-- `Wrapping<T>` formatting prints the inner value: `Display` / `UpperHex` / `LowerHex` are the `16·LIMBS` hex digits of
+    the value, `Binary` its `64·LIMBS` bits (exactness of the inner formatters is C16). -/
+theorem wrapping_fmt_spec (upper : Bool) {l : List Nat} (h : WF l) :
+    wrappingFmtHex upper false l = Encoding.specHexText upper (16 * l.length) (val l) ∧
+    wrappingFmtBin false l = Encoding.specBinText (64 * l.length) (val l) :=
+  ⟨Encoding.fmtHex_spec upper h, Encoding.fmtBin_spec h⟩
+
+example : ctoptSelect ([1, 2], 1) ([3, 4], 0) 1 = ([3, 4], 0) ∧ ctoptEq ([1, 2], 0) ([3, 4], 0) = 1 ∧
+    ctoptEq ([1, 2], 1) ([1, 2], 0) = 0 ∧ ctoptEq ([1, 2], 1) ([1, 2], 1) = 1 := by decide
+example : limbCheckedAddAssign (WMAX, 1) (1, 1) = (0, 0) ∧ limbCheckedAddAssign (5, 1) (7, 0) = (12, 0) ∧
+    limbCheckedSubAssign (7, 1) (5, 1) = (2, 1) := by decide
+example : wrappingIsOne [1, 0] = WMAX ∧ wrappingIsOne [1, 1] = 0 ∧ wrappingIsZero [0, 1] = 0 := by decide
+
+end coverage
 
 end CB.P04
